@@ -77,6 +77,9 @@ DISPL = [(0.0, 0.0, 0.0), (1.0, -2.0, 3.0)]
 _PERMS = refsem.signed_permutations()
 GENERIC = refsem.rotation([0.3, -1.0, 0.5], 75.0) @ refsem.rotation([1, 0, 0], 20.0)
 ROTS = ([('I', np.eye(3))] + [('perm%d' % i, M) for i, M in enumerate(_PERMS) if not np.allclose(M, np.eye(3))]
+        # tilts of a fraction of a degree: an axis that is almost, but not, a coordinate axis
+        + [('tilt0.1x', refsem.rotation([1, 0, 0], 0.1)), ('tilt0.02y', refsem.rotation([0, 1, 0], 0.02)),
+           ('tilt0.2d', refsem.rotation([1, -1, 0.3], 0.2))]
         + [('z30', refsem.rotation([0, 0, 1], 30.0)), ('d40', refsem.rotation([1, 1, 1], 40.0)),
            ('gen', GENERIC)])
 ROTS6 = [ROTS[0], ROTS[1], ROTS[8], ROTS[15], ROTS[-3], ROTS[-1]]
